@@ -20,6 +20,7 @@ import (
 	orbitdb "berty.tech/go-orbit-db"
 	"berty.tech/go-orbit-db/accesscontroller"
 	"berty.tech/go-orbit-db/address"
+	"berty.tech/go-orbit-db/events"
 	"berty.tech/go-orbit-db/iface"
 	"berty.tech/go-orbit-db/stores/operation"
 	"berty.tech/go-orbit-db/stores/replicator"
@@ -129,6 +130,13 @@ type World struct {
 	evSubs     []event.Subscription
 	obsSuffix  string
 	lastAddr    string
+	closedStores []iface.Store
+	closedOf     map[int]iface.Store
+	leakBase     int
+	evw         map[int]*evWatch
+	emitter     *events.EventEmitter
+	esubs       map[string]*esub
+	pendingEmit chan struct{}
 	roots       map[string]int
 	extraStores []iface.Store
 	heldHooks   map[string]chan struct{}
@@ -649,6 +657,13 @@ func (w *World) resetScenario(id string) {
 	w.extraStores = nil
 	w.roots = nil
 	w.lastAddr = ""
+	w.closedStores = nil
+	w.closedOf = map[int]iface.Store{}
+	for _, es := range w.esubs {
+		es.cancel()
+	}
+	w.esubs = nil
+	w.emitter = nil
 	// every scenario starts from empty local caches (the keystores, i.e. the identities, are kept)
 	for _, p := range w.peers {
 		p.cache.mu.Lock()
@@ -692,6 +707,7 @@ func (w *World) closeStores() {
 	}
 	w.evSubs = nil
 	w.evc = nil
+	w.evw = nil
 	w.dbs = nil
 	w.curDB = 0
 	w.stores = map[int]iface.Store{}
